@@ -8,7 +8,7 @@
 //   A x                        sat.assume(x)                         -> r=<0|1>
 //   O                          sat.pop()                             -> r=ok
 //   JQ                         semantic judge of the last new_eq on the current clause set (DPLL, any size); J <n>: truth table
-// Literals are 2 * variable + sign; a token @v.k stands for allows(v, k) and ~@v.k for its negation.
+// Literals are 2 * variable + sign; a token @v.k stands for allows(v, k), $k for the literal returned by the k-th new_eq, ~ negates.
 // At root level every operation is followed by propagate() (its result is printed as p=), because the iteration order
 // of the unordered containers inside new_eq decides which clauses are simplified by root values at creation time; after
 // propagation the root assignment and the clause set SIMPLIFIED BY THE ROOT ASSIGNMENT no longer depend on it.
@@ -46,7 +46,9 @@ static long tok(world &w, const std::string &t)
   bool neg = t[0] == '~';
   std::string u = neg ? t.substr(1) : t;
   long x;
-  if (u[0] == '@')
+  if (u[0] == '$')
+    x = w.eqs.at(std::stoul(u.substr(1))).res; // the literal returned by the k-th new_eq of this history
+  else if (u[0] == '@')
   {
     auto dot = u.find('.');
     var v = std::stoul(u.substr(1, dot - 1));
@@ -344,6 +346,31 @@ static std::string observe(world &w)
     for (auto &[k, x] : al)
       o << " " << k << ":" << x;
   }
+  // semantic judge of value(): after every operation and at every decision level the reported domain must be exactly the set of
+  // values whose literal is not False, computed here from the implementation's own literal values
+  std::string vs = "ok";
+  for (size_t v = 0; v < w.ov.assigns.size() && vs == "ok"; ++v)
+  {
+    std::set<int> reported, expected;
+    for (const auto &x : w.ov.value(v))
+      reported.insert(static_cast<val *>(x)->k);
+    for (int k = 0; k < 64; ++k)
+      if (w.ov.assigns[v].count(&w.pool[k]) && w.sat.value(w.ov.allows(v, w.pool[k])) != False)
+        expected.insert(k);
+    if (reported != expected)
+    {
+      std::ostringstream t;
+      t << "FAIL:var=" << v << ":reported={";
+      for (int k : reported)
+        t << k << ",";
+      t << "}:not-false={";
+      for (int k : expected)
+        t << k << ",";
+      t << "}";
+      vs = t.str();
+    }
+  }
+  o << " vs=" << vs;
   // the expression cache of ov_theory (printed key -> literal)
   std::vector<std::string> ex;
   for (const auto &[k, l] : w.ov.exprs)
